@@ -478,11 +478,11 @@ def main(tier, seed):
     cur = core.Space("curve_roundtrip", {
         "source": ["permeances", "fluxes", "ideal_generator"], "mixture": ["H2O_EtOH", "MeOH_Toluene"] if q else list(U.BUILTIN_MIXTURES),
         "basis": ["weight", "molar", "mixed"], "unit": [U.Units.kg_m2_h_kPa, "SI", "GPU"], "mode": ["vac", ("T", -20.0), ("p", 0.5)],
-        "scale": [1e-9, 1e-3, 1e3] if q else [1e-9, 1e-6, 1e-3, 1.0, 1e3], "T": core.lat([313.15, 353.15], seed)[:1], "xs": [[0.05, 0.4, 0.93], [0.05, 0.4, 0.4, 0.93, 0.93]],  # incl. replicate points
+        "scale": [1e-9, 1e-3, 1e3] if q else [1e-9, 1e-6, 1e-3, 1.0, 1e3], "T": core.lat([313.15, 353.15], seed)[:1], "xs": [[0.05, 0.4, 0.93], [0.05, 0.4, 0.4, 0.93, 0.93], [0.93, 0.4, 0.05], [0.4, 0.93, 0.05, 0.61]],  # incl. replicate points, descending and unordered curves
         "comment": [None, "a, \"quoted\" comment"]},
         lambda c: not (c["source"] != "permeances" and c["unit"] != U.Units.kg_m2_h_kPa) and not (c["source"] == "permeances" and c["mode"] != "vac"))
     core.run_space(rep, cur, judge_curve)
-    fn = [{"alpha": al, "a": a, "b": b, "numpy": npy} for al in (1e-9, 2.5, 1e3) for a in ([0.0], [1.3, -0.4]) for b in ([2300.0], [-800.0, 90.0, 40.0]) for npy in (False, True)]
+    fn = [{"alpha": al, "a": a, "b": b, "numpy": npy} for al in (1e-9, 2.5, 1e3) for a in ([], [0.0], [1.3, -0.4]) for b in ([2300.0], [-800.0, 90.0, 40.0]) for npy in (False, True)]
     core.run_space(rep, core.ListSpace("function_roundtrip", fn), judge_function)
     cd = core.Space("conditions_roundtrip", {"mode": ["vac", ("T", -20.0), ("p", 0.5), ("p", 0.0)], "basis": ["weight", "molar"], "area": [1e-9, 0.05, 1e3], "T": [333.15],
                                              "amount": [1e-3, 50.0], "x0": core.lat([0.1, 0.9], seed), "prog": ["none", "poly"]})
